@@ -78,16 +78,34 @@ Qed.
 
 Theorem emit_FamOK src : FamOK src (emit src).
 Proof.
-  intros ru Hru s sg Hm Hn. unfold emit.
+  intros ru Hru s sg Hm Hn c Hc. unfold emit.
   destruct (fr_prem ru) as [|a0 l] eqn:Ep.
-  - exists ru. split; [|split; [reflexivity|]].
+  - exists ru, sg, c. split; [|split; [exact Hc|split; [|left; reflexivity]]].
     + apply in_flat_map. exists ru. split; [exact Hru|]. unfold semi_naive. rewrite Ep. left. reflexivity.
     + rewrite Ep. constructor.
   - destruct Hn as [Hn|Hn]; [discriminate|].
     destruct (sn_prems_complete sg s (a0 :: l) []) as [p [Hp Hpm]]; [constructor | exact Hm | exact Hn |].
-    exists {| fr_prem := p; fr_conc := fr_conc ru |}. split; [|split; [reflexivity | exact Hpm]].
+    exists {| fr_prem := p; fr_conc := fr_conc ru |}, sg, c.
+    split; [|split; [exact Hc|split; [exact Hpm|left; reflexivity]]].
     apply in_flat_map. exists ru. split; [exact Hru|]. unfold semi_naive. rewrite Ep.
     apply in_map_iff. exists p. split; [reflexivity | exact Hp].
+Qed.
+
+Lemma FamOK_app src1 em1 src2 em2 : FamOK src1 em1 -> FamOK src2 em2 -> FamOK (src1 ++ src2) (em1 ++ em2).
+Proof.
+  intros H1 H2 ru Hru s sg Hm Hn c Hc. apply in_app_or in Hru. destruct Hru as [Hru|Hru].
+  - destruct (H1 ru Hru s sg Hm Hn c Hc) as [ru' [sg' [c' [A B]]]]. exists ru', sg', c'.
+    split; [apply in_or_app; left; exact A | exact B].
+  - destruct (H2 ru Hru s sg Hm Hn c Hc) as [ru' [sg' [c' [A B]]]]. exists ru', sg', c'.
+    split; [apply in_or_app; right; exact A | exact B].
+Qed.
+
+Lemma FamSound_app src1 em1 src2 em2 :
+  FamSound src1 em1 -> FamSound src2 em2 -> FamSound (src1 ++ src2) (em1 ++ em2).
+Proof.
+  intros H1 H2 ru' Hru'. apply in_app_or in Hru'. destruct Hru' as [Hru'|Hru'].
+  - destruct (H1 ru' Hru') as [ru [A B]]. exists ru. split; [apply in_or_app; left; exact A | exact B].
+  - destruct (H2 ru' Hru') as [ru [A B]]. exists ru. split; [apply in_or_app; right; exact A | exact B].
 Qed.
 
 Lemma sn_prems_atoms : forall rest pre p a, In p (sn_prems pre rest) -> In a p ->
@@ -126,7 +144,7 @@ Proof.
   intros ru' Hru'. unfold emit in Hru'. apply in_flat_map in Hru'. destruct Hru' as [ru [Hru Hin]].
   exists ru. split; [exact Hru|]. unfold semi_naive in Hin.
   destruct (fr_prem ru) as [|a0 l] eqn:Ep.
-  - destruct Hin as [<-|[]]. split; [reflexivity|]. intros s sg _. rewrite Ep. constructor.
+  - destruct Hin as [E|[]]. subst ru'. split; [reflexivity|]. intros s sg _. constructor.
   - apply in_map_iff in Hin. destruct Hin as [p [<- Hp]]. cbn [fr_conc fr_prem].
     split; [reflexivity|]. intros s sg Hm. unfold is_match. apply Forall_forall. intros a Ha.
     destruct (sn_prems_covers _ _ _ a Hp Ha) as [g Hg].
@@ -140,10 +158,116 @@ Proof.
   unfold wf_rules, emit. rewrite !Forall_forall. intros H ru' Hin.
   apply in_flat_map in Hin. destruct Hin as [ru [Hru Hin]]. specialize (H ru Hru).
   unfold semi_naive in Hin. destruct (fr_prem ru) as [|a0 l] eqn:Ep.
-  - destruct Hin as [<-|[]]. exact H.
+  - destruct Hin as [E|[]]. subst ru'. exact H.
   - apply in_map_iff in Hin. destruct Hin as [p [<- Hp]].
     intros c x Hc Hx. cbn [fr_conc fr_prem] in *. specialize (H c x Hc Hx). rewrite Ep in H.
     unfold prem_vars in *. apply in_flat_map in H. destruct H as [a [Ha Hxa]].
     destruct (sn_prems_covers _ _ _ a Hp Ha) as [g Hg]. apply in_flat_map.
     exists (set_age g a). split; [exact Hg | exact Hxa].
+Qed.
+
+(* ---------- the emitted functionality rule: ONE sub-rule  f(a,r0)[new], f(a,r1)[all] => r0 == r1 ---------- *)
+Definition func_sub (f : N) (nargs : nat) : frule :=
+  let xs := map N.of_nat (seq 0 nargs) in
+  let r0 := N.of_nat nargs in
+  let r1 := N.of_nat (S nargs) in
+  {| fr_prem := [ {| fa_rel := FRel f; fa_args := xs ++ [r0]; fa_age := New |};
+                  {| fa_rel := FRel f; fa_args := xs ++ [r1]; fa_age := All |} ];
+     fr_conc := [CEq r0 r1] |}.
+
+Lemma FamOK_func f n : FamOK [func_rule f n] [func_sub f n].
+Proof.
+  intros ru [<-|[]] s sg Hm Hn c Hc. cbn [func_rule fr_conc In] in Hc. destruct Hc as [<-|[]].
+  unfold is_match, func_rule in Hm. cbn [fr_prem] in Hm.
+  inversion Hm as [|? ? H0 Hm']; subst. inversion Hm' as [|? ? H1 _]; subst. clear Hm Hm'.
+  unfold atom_in in H0, H1. cbn [fa_rel fa_args] in H0, H1.
+  set (xs := map N.of_nat (seq 0 n)) in *. set (r0 := N.of_nat n) in *. set (r1 := N.of_nat (S n)) in *.
+  destruct (in_dec fact_eq_dec (FRel f, map sg (xs ++ [r0])) (new s)) as [I0|I0].
+  - exists (func_sub f n), sg, (CEq r0 r1). split; [left; reflexivity|]. split; [left; reflexivity|].
+    split; [|left; reflexivity].
+    unfold aged_match, func_sub. cbn [fr_prem]. fold xs r0 r1.
+    constructor; [exact I0|]. constructor; [|constructor].
+    unfold atom_in. cbn [fa_rel fa_args fa_age tbl]. unfold allf in H1. rewrite in_app_iff in *. tauto.
+  - assert (I1 : In (FRel f, map sg (xs ++ [r1])) (new s)).
+    { destruct Hn as [Hn|[a [Ha Hin]]]; [discriminate|]. unfold func_rule in Ha. cbn [fr_prem In] in Ha.
+      fold xs r0 r1 in Ha. destruct Ha as [<-|[<-|[]]]; unfold atom_in in Hin; cbn [fa_rel fa_args] in Hin;
+        [contradiction | exact Hin]. }
+    set (sg' := fun x => if N.eqb x r0 then sg r1 else if N.eqb x r1 then sg r0 else sg x).
+    assert (Hne : r0 <> r1) by (unfold r0, r1; lia).
+    assert (Hxs : map sg' xs = map sg xs).
+    { apply map_ext_in. intros x Hx. unfold xs in Hx. apply in_map_iff in Hx. destruct Hx as [i [<- Hi]].
+      apply in_seq in Hi. unfold sg'.
+      assert (E0 : N.eqb (N.of_nat i) r0 = false) by (apply N.eqb_neq; unfold r0; lia).
+      assert (E1 : N.eqb (N.of_nat i) r1 = false) by (apply N.eqb_neq; unfold r1; lia).
+      rewrite E0, E1. reflexivity. }
+    assert (S0 : sg' r0 = sg r1) by (unfold sg'; rewrite N.eqb_refl; reflexivity).
+    assert (S1 : sg' r1 = sg r0).
+    { unfold sg'. assert (E : N.eqb r1 r0 = false) by (apply N.eqb_neq; congruence).
+      rewrite E, N.eqb_refl. reflexivity. }
+    exists (func_sub f n), sg', (CEq r0 r1). split; [left; reflexivity|]. split; [left; reflexivity|].
+    split.
+    + unfold aged_match, func_sub. cbn [fr_prem]. fold xs r0 r1.
+      constructor; [|constructor; [|constructor]]; unfold atom_in; cbn [fa_rel fa_args fa_age tbl];
+        rewrite map_app, Hxs; cbn [map]; rewrite ?S0, ?S1.
+      * rewrite map_app in I1. exact I1.
+      * rewrite map_app in H0. unfold allf in H0. rewrite in_app_iff in *. tauto.
+    + right. exists (sg r1), (sg r0). cbn [ground]. rewrite S0, S1. auto.
+Qed.
+
+Lemma FamSound_func f n : FamSound [func_rule f n] [func_sub f n].
+Proof.
+  intros ru' [<-|[]]. exists (func_rule f n). split; [left; reflexivity|]. split; [reflexivity|].
+  intros s sg Hm. unfold aged_match, func_sub in Hm. cbn [fr_prem] in Hm.
+  inversion Hm as [|? ? H0 Hm']; subst. inversion Hm' as [|? ? H1 _]; subst.
+  unfold is_match, func_rule. cbn [fr_prem]. unfold atom_in in *. cbn [fa_rel fa_args fa_age tbl] in *.
+  constructor; [|constructor; [|constructor]]; cbn [fa_rel fa_args]; unfold allf; rewrite in_app_iff in *; tauto.
+Qed.
+
+(* ---------- families up to the order of premise atoms ---------- *)
+Definition covers (em em' : list frule) : Prop :=
+  forall ru, In ru em -> exists ru', In ru' em' /\ fr_conc ru' = fr_conc ru /\ incl (fr_prem ru') (fr_prem ru).
+
+Lemma aged_match_incl sg s p p' : incl p' p -> aged_match sg p s -> aged_match sg p' s.
+Proof.
+  unfold aged_match. rewrite !Forall_forall. intros Hi H a Ha. apply H. apply Hi. exact Ha.
+Qed.
+
+Lemma FamOK_cover src em em' : FamOK src em -> covers em em' -> FamOK src em'.
+Proof.
+  intros H Hc ru Hru s sg Hm Hn c Hcc.
+  destruct (H ru Hru s sg Hm Hn c Hcc) as [ru1 [sg' [c' [Hru1 [Hc' [Hag Hs]]]]]].
+  destruct (Hc ru1 Hru1) as [ru' [Hru' [Ec Hi]]].
+  exists ru', sg', c'. split; [exact Hru'|]. split; [rewrite Ec; exact Hc'|]. split; [|exact Hs].
+  eapply aged_match_incl; eauto.
+Qed.
+
+Lemma FamSound_cover src em em' : FamSound src em -> covers em' em -> FamSound src em'.
+Proof.
+  intros H Hc ru' Hru'. destruct (Hc ru' Hru') as [ru1 [Hru1 [Ec Hi]]].
+  destruct (H ru1 Hru1) as [ru [Hru [Ec2 Hm]]]. exists ru. split; [exact Hru|]. split; [congruence|].
+  intros s sg Hag. apply Hm. eapply aged_match_incl; eauto.
+Qed.
+
+Lemma age_eq_dec (a b : age) : {a = b} + {a <> b}.
+Proof. decide equality. Defined.
+Lemma fatom_eq_dec (a b : fatom) : {a = b} + {a <> b}.
+Proof. decide equality; [apply age_eq_dec | apply list_eq_dec, N.eq_dec | apply frel_eq_dec]. Defined.
+Lemma fconc_eq_dec (a b : fconc) : {a = b} + {a <> b}.
+Proof. decide equality; try apply N.eq_dec; apply list_eq_dec, N.eq_dec. Defined.
+
+Definition incl_b (l1 l2 : list fatom) : bool :=
+  forallb (fun a => if in_dec fatom_eq_dec a l2 then true else false) l1.
+Definition covers_b (em em' : list frule) : bool :=
+  forallb (fun ru =>
+             existsb (fun ru' => (if list_eq_dec fconc_eq_dec (fr_conc ru') (fr_conc ru) then true else false)
+                                 && incl_b (fr_prem ru') (fr_prem ru)) em') em.
+
+Lemma covers_b_sound em em' : covers_b em em' = true -> covers em em'.
+Proof.
+  unfold covers_b, covers. rewrite forallb_forall. intros H ru Hru. specialize (H ru Hru).
+  apply existsb_exists in H. destruct H as [ru' [Hru' H]]. apply andb_true_iff in H. destruct H as [H1 H2].
+  exists ru'. split; [exact Hru'|]. split.
+  - destruct (list_eq_dec fconc_eq_dec (fr_conc ru') (fr_conc ru)); [assumption | discriminate].
+  - unfold incl_b in H2. rewrite forallb_forall in H2. intros a Ha. specialize (H2 a Ha).
+    destruct (in_dec fatom_eq_dec a (fr_prem ru)); [assumption | discriminate].
 Qed.
